@@ -206,6 +206,13 @@ class Ctx:
                     if t not in seen:
                         failures.append(f"theorem {t} missing from axiom audit")
         self.cov["property_theorems"] = thms
+        if ok and self.tier == "thorough":
+            # independent re-check of the compiled property modules
+            for mod in prop_modules:
+                rc, o, e = run(["lake", "env", "leanchecker", mod], cwd=LEAN)
+                self.cov.setdefault("leanchecker", {})[mod] = rc
+                if rc != 0:
+                    failures.append(f"leanchecker rejects {mod}: " + (o + e)[-300:])
         return (not failures), failures
 
     def _theorems_of(self, path):
